@@ -720,9 +720,20 @@ class Tracer:
         if isinstance(target, ast.Name):
             p.env[target.id] = v
         elif isinstance(target, (ast.Tuple, ast.List)):
+            n_t = len(target.elts)
+            star = next((i for i, e in enumerate(target.elts) if isinstance(e, ast.Starred)), None)
             for i, e in enumerate(target.elts):
                 if isinstance(e, ast.Starred):
-                    self._bind(e.value, Val(ast.Subscript(value=v.ast, slice=ast.Slice(lower=ast.Constant(value=i)), ctx=ast.Load()), tags=v.tags), p, fi, stmt)
+                    after = n_t - i - 1
+                    sl = ast.Slice(lower=ast.Constant(value=i), upper=(ast.UnaryOp(op=ast.USub(), operand=ast.Constant(value=after)) if after else None))
+                    self._bind(e.value, Val(ast.Subscript(value=v.ast, slice=sl, ctx=ast.Load()), tags=v.tags), p, fi, stmt)
+                elif star is not None and i > star:
+                    # a target after the starred one counts from the end: *_, parent, last = chain  ->  chain[-2], chain[-1]
+                    k = i - n_t
+                    if v.elems is not None and not any(isinstance(x.ast, ast.Starred) for x in v.elems) and len(v.elems) >= n_t - 1:
+                        self._bind(e, v.elems[k], p, fi, stmt)
+                    else:
+                        self._bind(e, Val(ast.Subscript(value=v.ast, slice=ast.UnaryOp(op=ast.USub(), operand=ast.Constant(value=-k)), ctx=ast.Load()), tags=v.tags), p, fi, stmt)
                 elif v.elems is not None and i < len(v.elems):
                     self._bind(e, v.elems[i], p, fi, stmt)
                 else:
